@@ -171,6 +171,7 @@ func cvObsText(b []byte, err error) string {
 	if err != nil {
 		return "err"
 	}
+	retainNote(b)
 	return "ok " + cvTok(b)
 }
 
